@@ -71,6 +71,8 @@ def family(quick):
             for comp in ("float", "int"):
                 params = [(f"a{j}", rt_of(comp if j % 2 == 0 else "float", k)) for j, k in enumerate(p)]
                 add(f"cons{n}:{p}:{comp}", params, vt(n), [A.ret(A.cons(vt(n), [V(nm) for nm, _ in params]))])
+                # ... and an int vector from float parts: every component is converted to the component type of the result
+                add(f"consi{n}:{p}:{comp}", params, vt(n, "int"), [A.ret(A.cons(vt(n, "int"), [V(nm) for nm, _ in params]))])
                 # constructing a value must leave the vectors it was built from unchanged (and usable afterwards)
                 for j, k in enumerate(p):
                     if k > 1:
@@ -119,6 +121,12 @@ def family(quick):
             add(f"vs*{n}{comp}", [("v", t), ("x", {"k": comp})], t, [A.ret(B("*", V("v"), V("x")))])
             add(f"sv*{n}{comp}", [("v", t), ("x", {"k": comp})], t, [A.ret(B("*", V("x"), V("v")))])
             add(f"vs/{n}{comp}", [("v", t)], t, [A.ret(B("/", V("v"), L(2) if comp == "int" else A.lit_f(2, 0)))])
+            other = "int" if comp == "float" else "float"
+            # mixed component types: the vector is promoted to the wider component type (int vector / float -> float vector)
+            add(f"vsm/{n}{comp}", [("v", t)], vt(n), [A.ret(B("/", V("v"), A.lit_f(2, 0) if comp == "int" else L(2)))])
+            add(f"vsm*{n}{comp}", [("v", t), ("x", {"k": other})], vt(n), [A.ret(B("*", V("v"), V("x")))])
+            add(f"svm*{n}{comp}", [("v", t), ("x", {"k": other})], vt(n), [A.ret(B("*", V("x"), V("v")))])
+            add(f"vsmp/{n}{comp}", [("v", t), ("x", {"k": other})], vt(n), [A.ret(B("/", V("v"), B("-", V("x"), V("x") if False else (L(0) if other == "int" else A.lit_f(0, 0)))))])
             add(f"vcopy{n}{comp}", [("v", t), ("x", {"k": comp})], t, [A.decl("u", t, V("v")), A.estmt(A.asg(A.idx(V("u"), L(1)), V("x"))), A.ret(B("+", V("v"), B("*", V("u"), L(100))))])
         add(f"vmix{n}", [("v", vt(n)), ("w", vt(n, "int"))], vt(n), [A.ret(B("+", V("v"), V("w")))])
     return out
